@@ -291,3 +291,100 @@ func (ip *IterPath) Describe(p *Prog) []string {
 	}
 	return out
 }
+
+// EnumRegionPaths enumerates the acyclic paths from start to the first block
+// satisfying stop (inclusive), with the same constant tracking as
+// EnumIterPaths. Paths that return or close a cycle before reaching a stop
+// block are reported with End "return" / "cycle".
+func EnumRegionPaths(fn *ssa.Function, start *ssa.BasicBlock, stop func(*ssa.BasicBlock) bool, limit int) ([]*IterPath, bool) {
+	var out []*IterPath
+	complete := true
+	var walk func(b, from *ssa.BasicBlock, env pathEnv, blocks []*ssa.BasicBlock, conds []Guard, onPath map[*ssa.BasicBlock]bool)
+	walk = func(b, from *ssa.BasicBlock, env pathEnv, blocks []*ssa.BasicBlock, conds []Guard, onPath map[*ssa.BasicBlock]bool) {
+		if len(out) >= limit {
+			complete = false
+			return
+		}
+		if from != nil {
+			newVals := map[ssa.Value]envVal{}
+			for _, in := range b.Instrs {
+				phi, ok := in.(*ssa.Phi)
+				if !ok {
+					break
+				}
+				for i, pr := range b.Preds {
+					if pr == from {
+						newVals[phi] = env.eval(phi.Edges[i])
+						break
+					}
+				}
+			}
+			for _, in := range b.Instrs {
+				if v, ok := in.(ssa.Value); ok {
+					delete(env, v)
+				}
+			}
+			for k, v := range newVals {
+				if v.known {
+					env[k] = v
+				}
+			}
+		}
+		blocks = append(append([]*ssa.BasicBlock{}, blocks...), b)
+		if from != nil && stop(b) {
+			out = append(out, &IterPath{Blocks: blocks, End: "stop", Conds: conds})
+			return
+		}
+		onPath[b] = true
+		defer func() { onPath[b] = false }()
+		last := b.Instrs[len(b.Instrs)-1]
+		if _, ok := last.(*ssa.Return); ok {
+			out = append(out, &IterPath{Blocks: blocks, End: "return", Conds: conds})
+			return
+		}
+		type nxt struct {
+			s       *ssa.BasicBlock
+			hasCond bool
+			outcome bool
+		}
+		var nexts []nxt
+		if iff, ok := last.(*ssa.If); ok && b.Succs[0] != b.Succs[1] {
+			dec := env.eval(iff.Cond)
+			if dec.known && dec.c != nil && dec.c.Kind() == constant.Bool {
+				if constant.BoolVal(dec.c) {
+					nexts = []nxt{{b.Succs[0], true, true}}
+				} else {
+					nexts = []nxt{{b.Succs[1], true, false}}
+				}
+			} else {
+				nexts = []nxt{{b.Succs[0], true, true}, {b.Succs[1], true, false}}
+			}
+		} else {
+			for _, s := range b.Succs {
+				nexts = append(nexts, nxt{s, false, false})
+			}
+		}
+		for _, n := range nexts {
+			c2 := conds
+			e2 := env.clone()
+			if n.hasCond {
+				iff := last.(*ssa.If)
+				c2 = append(append([]Guard{}, conds...), Guard{iff.Cond, n.outcome, b})
+				e2.assume(iff.Cond, n.outcome)
+			}
+			if onPath[n.s] || n.s == start {
+				out = append(out, &IterPath{Blocks: append(append([]*ssa.BasicBlock{}, blocks...), n.s), End: "cycle", Conds: c2})
+				continue
+			}
+			walk(n.s, b, e2, blocks, c2, onPath)
+		}
+	}
+	walk(start, nil, pathEnv{}, nil, nil, map[*ssa.BasicBlock]bool{})
+	return out, complete
+}
+
+// ResolveAt follows phis along the path like Resolve, treating the path as a plain block sequence.
+func (ip *IterPath) ResolveAt(v ssa.Value) ssa.Value {
+	sub := &IterPath{Blocks: ip.Blocks, End: "partial"}
+	return sub.Resolve(v)
+}
